@@ -148,14 +148,18 @@ func (k *KafkaSarama) inputMsg(topic string, mCh chan []byte, ec *uint64) {
 			break
 		}
 
-		select {
-		case k.producer.Input() <- &sarama.ProducerMessage{
-			Topic: topic,
-			Value: sarama.ByteEncoder(msg),
-		}:
-		case err := <-k.producer.Errors():
-			k.logger.Println(err)
-			*ec++
+	offer:
+		for {
+			select {
+			case k.producer.Input() <- &sarama.ProducerMessage{
+				Topic: topic,
+				Value: sarama.ByteEncoder(msg),
+			}:
+				break offer
+			case err := <-k.producer.Errors():
+				k.logger.Println(err)
+				*ec++
+			}
 		}
 	}
 
